@@ -335,13 +335,13 @@ def run(R: Run):
         else:
             sshape, dshape = (rng.randint(1, 30), rng.randint(1, 30)), (rng.randint(1, 30), rng.randint(1, 30))
         fam = rng.random()
-        if fam < 0.45:
+        if fam < 0.35:
             S = gen_src_affine(rng)
             Mx, kind = gen_M_exact(rng, sshape, dshape)
-        elif fam < 0.8:
+        elif fam < 0.6:
             S = Affine.identity() if rng.random() < 0.5 else gen_src_affine(rng)
             Mx, kind = gen_M_patched(rng, sshape, dshape)
-        elif fam < 0.9:  # caller supplied tolerances, scales straddling k ± stol, shifts straddling ttol
+        elif fam < 0.85:  # caller supplied tolerances, scales straddling k ± stol, shifts straddling ttol
             stol_c = rng.choice([1e-2, 1e-3, 1e-4, 1e-6])
             ttol_c = rng.choice([0.05, 1e-2, 1e-3, 0.2])
             k = rng.choice([1, 1, 2, 2, 3, 4])
@@ -382,7 +382,7 @@ def run(R: Run):
             D = S * Affine.translation(rng.uniform(-0.5, 0.5), rng.uniform(-0.5, 0.5)) * Mx
         stol = 1e-3 if stol_c is None else stol_c
         # padding / alignment options are part of the plan's input space
-        if rng.random() < 0.55:
+        if rng.random() < (0.85 if kind.startswith("tol-") else 0.55):
             pad, al = rng.choice([None, None, 0]), rng.choice([None, None, 0])
         else:
             pad, al = rng.choice([None, 0, 1, 2, 5]), rng.choice([None, 0, 1, 2, 4, 16])
@@ -402,7 +402,11 @@ def run(R: Run):
         a, b, c, d, e, f = A6
         stq, ttq = Fraction(stol), Fraction(ttol)
         fr = lambda v: abs(v - round(v))  # noqa: E731
-        slack = Fraction(1, 10**9) + stq / 10**6
+        # the planner works in doubles: a shift is only known to about 16 ulp of the world coordinates, in pixels
+        pos = max(abs(S.c), abs(S.f), abs(D.c), abs(D.f), 1e-300)
+        pix = min(math.hypot(S.a, S.d), math.hypot(S.b, S.e), math.hypot(D.a, D.d), math.hypot(D.b, D.e))
+        slack_t = Fraction(16 * 2.2e-16 * pos / pix) if pix > 0 else Fraction(0)
+        slack = Fraction(1, 10**9) + stq / 10**6 + slack_t
         if r.paste_ok:
             good = (abs(b) < Fraction(1e-10) + slack and abs(d) < Fraction(1e-10) + slack and abs(abs(a) / rs - 1) < stq + slack
                     and abs(abs(e) / rs - 1) < stq + slack and fr(c / rs) < ttq + slack and fr(f / rs) < ttq + slack)
